@@ -1,6 +1,6 @@
 """C03 — the notes in the MIDI file are the notes the MML text denotes: streams."""
 from ..core import Stream, hx, unhx
-from .. import mml
+from .. import mml, execstream
 
 RULE = ("core: programs derived from the core-language grammar (lettered/numbered notes with accidentals and per-note l/q/v/t/o incl. empty slots, "
         "rests, l o v q t, < > ( ), loops with ':', chords, tuplets incl. loops inside, Sub, TR/CH/@, KeyFlag/KeyShift/TrackKey; values inside and "
@@ -9,7 +9,8 @@ RULE = ("core: programs derived from the core-language grammar (lettered/numbere
         "the time pointers after the program are compared too. non-trivial = distinct decoded note streams with >= 3 notes")
 ASSUMPTIONS = ["gate len*q/100 uses f32 in the code; the generator keeps len*q < 2^22 where f32 truncation equals exact truncation",
                "a chord length does not start with '%' and chords/Sub are not placed inside tuplets (grammar restrictions of the language)"]
-TRUSTED = ["Spec.Core.sem (one page) is my reading of the documented command semantics"]
+TRUSTED = ["Spec.Core.sem (one page) is my reading of the documented command semantics",
+           "Model.Exec (literal model of runner::exec for the core tokens) is tied to runner.rs by the `exec` stream on the real lexer's token lists"]
 
 def streams(tier, rng, P, only=None, cases=None):
     big = tier == "thorough"
@@ -56,4 +57,5 @@ def streams(tier, rng, P, only=None, cases=None):
         src = mml.pr(prog)
         return dict(req="run " + hx(src), src=src, show=src, sexp=mml.sexp(prog), key=case.get("key", "") + "-shrunk")
     s1.ast_rebuild = rebuild
-    return [s for s in (s1,) if only in (None, s.name)]
+    s2 = execstream.exec_stream(tier, rng, P, only, cases)
+    return [s for s in (s1, s2) if only in (None, s.name)]
